@@ -10,7 +10,9 @@ Definition show_str (s : list N) : string := show_list show_N s.
 Inductive case :=
 | CQuote (s : list N)          (* lowQuote, lowDequote of it, ctcpQuote, ctcpDequote of it; and dequotes of s itself *)
 | CSend (nicklen : nat) (msgType user message : list N) (len : option Z) (wrapped : list (list (list N)))
-| CHist (calls : list case).   (* several calls on ONE client: the model has no state, each call stands alone *)
+| CHist (calls : list case)    (* several calls on ONE client: the model has no state, each call stands alone *)
+| CRate (calls : list (case * nat)).   (* lineRate set: calls on one client, each followed by that many clock
+                                           ticks of lineRate seconds; then the queue is drained *)
 
 Definition show_send (nl : nat) (mt u m : list N) (len : option Z) (wr : list (list (list N))) : string :=
   match send_message nl mt u m len wr with
@@ -19,6 +21,34 @@ Definition show_send (nl : nat) (mt u m : list N) (len : option Z) (wr : list (l
   | OSent wires => String.concat "|" (map show_hex wires)
   end.
 
+Definition outcome_of (c : case) : outcome :=
+  match c with
+  | CSend nl mt u m len wr => send_message nl mt u m len wr
+  | _ => OBadTable
+  end.
+
+(** the queue model driven by the calls: per call the outcome, the number of lines written after
+    the call's ticks; finally all lines in the order they were written *)
+Fixpoint rate_run (st : qstate) (calls : list (case * nat)) : list string * list nat * qstate :=
+  match calls with
+  | [] => ([], [], st)
+  | (c, ticks) :: r =>
+      let '(tag, st1) := match outcome_of c with
+                         | OSent wires => ("ok", fold_left q_send wires st)
+                         | OValueError => ("ValueError", st)
+                         | OBadTable => ("BADTABLE", st)
+                         end in
+      let st2 := q_run st1 (repeat QTick ticks) in
+      let '(tags, counts, st3) := rate_run st2 r in
+      (tag :: tags, List.length (q_sent st2) :: counts, st3)
+  end.
+
+Definition show_rate (calls : list (case * nat)) : string :=
+  let '(tags, counts, st) := rate_run q_init calls in
+  let st' := q_run st (repeat QTick (S (List.length (q_queue st)))) in
+  String.concat ";" tags ++ " @ " ++ String.concat "," (map show_nat counts) ++ " @ "
+  ++ String.concat "|" (map show_hex (q_sent st')).
+
 Fixpoint run_show (c : case) : string :=
   match c with
   | CQuote s =>
@@ -26,4 +56,5 @@ Fixpoint run_show (c : case) : string :=
       ++ " " ++ show_str (ctcpQuote s) ++ " " ++ show_str (ctcpDequote (ctcpQuote s)) ++ " " ++ show_str (ctcpDequote s)
   | CSend nl mt u m len wr => show_send nl mt u m len wr
   | CHist calls => String.concat ";" (map run_show calls)
+  | CRate calls => show_rate calls
   end.
